@@ -128,6 +128,14 @@ CLAIMED = {
         text="Histories of up to 3 declarations/definitions (objects: 6 storage-class combinations; functions: 6 specifier combinations; file/block scope; with/without initialiser or body) and random units with "
              "interleaved histories, block-scope externs/statics, tentative arrays, asm labels and thread-locals: defined symbols with export flag, kind, size and zero-ness, no-linkage objects and undefined references must match the references.",
         note="gcc 12 and clang 14 (-std=c11 -pedantic-errors, implicit declarations as errors) are the oracle instead of a hand-written linkage model; quick tier samples 1/7 of the length-2/3 histories per seed, thorough enumerates all (and samples length 4); two recorded findings are replayed separately."),
+    "C16": dict(
+        category="exploration", design_ref="DESIGN.md 3/C16",
+        engine="rapidcheck+hypothesis",
+        technique="model-based testing: rapidcheck operation histories against map.c with a std::unordered_map model and engineered hash collisions; Hypothesis scope trees with systematic shadowing checked against the generator's own scope model; goto chains executed via il2c; macro and string-literal identity",
+        text="(a) map.c linked in-process: insert/lookup/overwrite/reinit histories with keys colliding in the low bits of the table hash for every table size, model and structural invariants after every step. "
+             "(b) generated units with up to 5000 (50000 thorough) identifiers, 200-deep scopes and shadowing between enumeration constants, typedefs, objects and tags: every use must denote the declaration the scope model selects; "
+             "5000-label goto chains, 50000 macros and prefix-sharing string literals of every width resolve to their own entity.",
+        note="(a) capacities 1 and 2 can fill completely (lookup of an absent key would not terminate); cproc only uses capacities >= 8, the harness skips and counts those lookups. (b) the scope model is the generator's own; IL executed through il2c."),
 }
 
 NOT_YET = "check not built yet in this round (planned per DESIGN.md section 10); no claim is made"
